@@ -191,7 +191,7 @@ _add(
         "or the default the base evaluator inserts); absent and empty expression. Oracle: Boolean value of the AST; message present iff "
         "unfulfilled. distinct non-trivial = distinct expression strings mixing >= 2 operator kinds"
     ),
-    deciding={"any": {"expressions": 300, "expressions_mixing_operators": 100, "unfulfilled_results": 1000, "fulfilled_results": 1000, "async_evaluations": 500, "empty_expressions": 2, "evaluations_without_messages": 1000, "async_evaluations_under_random_completion_order": 200, "evaluations_with_shipped_evaluators": 200, "concurrent_evaluations": 200, "small_scope_expressions": 500}},
+    deciding={"any": {"expressions": 300, "expressions_mixing_operators": 100, "unfulfilled_results": 1000, "fulfilled_results": 1000, "async_evaluations": 500, "empty_expressions": 2, "evaluations_without_messages": 1000, "async_evaluations_under_random_completion_order": 200, "evaluations_with_shipped_evaluators": 200, "concurrent_evaluations": 200, "small_scope_expressions": 500, "evaluations_with_texts_on_fulfilled_constraints": 1000}},
     headline=["expressions", "expressions_mixing_operators", "fulfilled_results", "unfulfilled_results", "async_evaluations"],
 )
 
@@ -365,7 +365,7 @@ _add(
         "evaluating the round-tripped tree == evaluating the original. distinct non-trivial = distinct round-tripped trees, content evaluation "
         "results and extracts"
     ),
-    deciding={"any": {"trees": 200, "evaluations_compared": 100, "results_with_undetermined_outcome": 20, "round_trips:ahb-result": 50, "round_trips:requirement-result": 100, "round_trips:format-result": 100, "round_trips:content-evaluation-result": 300, "round_trips:categorized-key-extract": 50, "round_trips:evaluated-format-constraint": 200, "concise_dumps_before_round_trip": 100, "unsanitized_extracts": 50, "staged_resolutions": 30, "rejected_documents_in_between": 100, "foreign_schema_classes_defined": 1, "extracts_round_tripped_after_use": 50}},
+    deciding={"any": {"trees": 200, "evaluations_compared": 100, "results_with_undetermined_outcome": 20, "round_trips:ahb-result": 50, "round_trips:requirement-result": 100, "round_trips:format-result": 100, "round_trips:content-evaluation-result": 300, "round_trips:categorized-key-extract": 50, "round_trips:evaluated-format-constraint": 200, "concise_dumps_before_round_trip": 100, "unsanitized_extracts": 50, "staged_resolutions": 30, "rejected_documents_in_between": 100, "foreign_schema_classes_defined": 1, "extracts_round_tripped_after_use": 50, "deep_tree_round_trips": 4}},
     headline=["trees", "evaluations_compared", "results_with_undetermined_outcome"],
 )
 
@@ -378,18 +378,19 @@ RULE_ADDITIONS = {
     "C04": "small scope, complete: EVERY structurally valid expression with up to 3 (thorough: 4) leaves over {[1], [2], [501], [901], [902]} under all 3^k assignments; half of the async evaluations run under a random completion order; every fourth expression also through the library's own evaluators (dictionary based, ContentEvaluationResult based with fresh and with ONE long-lived in-place refreshed EvaluatableData, user evaluator classes with instance state and new instances per message), assignments consecutively per mode; re-evaluation with the same tree and input node objects. the harness requirement evaluator routes two redefined keys through an overridden get_evaluation_method while the class still carries the superseded evaluate_<key> methods (which answer differently). and-only expressions under assignments over all FOUR states (NEUTRAL answered by the user evaluator); a third of the async evaluations with an EvaluatableDataProvider that is a context manager (data released when the injected call returns); ContentEvaluationResult bodies spell the states in upper / lower / title case.",
     "C05": "fresh keys include the ends of the hint / format-constraint ranges; up to six variants per expression also through the async API, mostly under a random completion order. a third of the async pairs with hint texts that are empty, blank, 0 or None (as strings). a third of the async pairs written with packages (resolved by the library first).",
     "C06": "small scope, complete: EVERY expression of the domain (valid and invalid) with up to 3 (thorough: 4) leaves over {[1], [2], [501], [901], [902]} under all assignments; is_valid_expression also on the already resolved tree; a class of expressions built from hints and format constraints alone (the 'directly combines a single hint with a single format constraint' boundary); failing out-of-domain evaluations interleaved with the judged ones.",
-    "C08": "small scope, complete: EVERY U/O/X expression with up to 3 (thorough: 4) leaves over three keys (minimal brackets / flat runs, all spellings) under all truth assignments; message-less constraints through the tree evaluator (Boolean clause only); async evaluations mostly under a random completion order; the library's dictionary / ContentEvaluationResult based evaluators with and without messages; 2-5 concurrent evaluations of one expression with different texts (no foreign text in a message).",
+    "C08": "small scope, complete: EVERY U/O/X expression with up to 3 (thorough: 4) leaves over three keys (minimal brackets / flat runs, all spellings) under all truth assignments; message-less constraints through the tree evaluator (Boolean clause only); async evaluations mostly under a random completion order; the library's dictionary / ContentEvaluationResult based evaluators with and without messages; 2-5 concurrent evaluations of one expression with different texts (no foreign text in a message). every truth assignment also with fulfilled single constraints that carry a text of their own (odd keys): the message clause must hold for them as well.",
     "C09": "every fifth case an AHB expression whose parts are written with packages (several per part, different nesting depths) evaluated after resolution against the parts' own written-out condition expressions; the first assignment of every expression also through the library's own dictionary / ContentEvaluationResult based evaluators (same result as with equivalent user evaluators).",
     "C10": "a third of the cases with packages also against a message of a format / version for which no package table is registered (NotImplementedError demanded); shipped resolvers incl. a user-written provider that serves one DictBasedPackageResolver created without format; half of the cases also through the library's own package resolvers (dictionary based; ContentEvaluationResult based with the same resolver instances and changing data). a content evaluation result without package table (packages = None) through the cer / hardcoded resolvers; repeatabilities whose bounds have different numbers of digits (2..10, 9..10, 5..100).",
     "C11": "the combined resolver (time conditions kept, so that it hands out what it got from the condition parser) is part of the histories: its trees are edited too and the condition parts of the AHB expressions are pool strings of their own; flood strings must parse; every pool string also goes to the OTHER parser before, during and after the history (must stay a SyntaxError); 11 strings with packages and all three time conditions go through the resolver with everything switched on, the trees it returns are edited and every such string is resolved again (first result == every later result). a fifth of the parse calls pass the string by keyword; the edit operations include writing .value / .type of a Token of a returned tree.",
     "C12": "a third of the expressions use one package at several places (every occurrence a look-up of its own); the abbreviated expression must evaluate like the expression with every package written out; the three gather sites called directly (evaluate_conditions also with per-key evaluation contexts, a key asked for twice) under all / sampled orders; the harness evaluator narrows and re-reads its evaluation context around the yield; 2-4 concurrent evaluations whose requirement evaluators await look-ups SHARED between all of them while one evaluation fails (an invalid modal-mark part beside a valid one): every other evaluation must end as it does alone (FIFO, LIFO, 3 random orders). 150 isolation cases through the shipped ContentEvaluationResult based evaluators (one set of instances, per-task results in context-local data); a package resolver that answers every look-up with a numbered expression of its own (each answer must be in the resolved tree exactly once, all orders); is_valid_expression must hand a different element of the product to every evaluation it starts.",
     "C13": "complete parent x child table: every (indicator, outcome) of a parent x every (indicator, outcome) of its child x both flag values for group > segment and segment > free text (thorough: three levels); validate_segment(_group) with an explicit parent status (all three); batches of 2-4 validations awaited from one coroutine; a quarter of the runs through the library's own evaluators; 40 % of the trees with maus line indexes in flat-AHB order; a third of the trees partly written with packages.",
     "C14": "35 % of the trees with exactly one UNKNOWN key (so that it reaches only SOLL nodes); the segment-level entry point without flag after a refused run with flag False in the same task; a third of the trees partly written with packages.",
-    "C15": "inputs with leading / trailing whitespace and whitespace-only inputs; trees whose evaluator answers with long-lived per-key result objects; every fourth tree shares three keys between all elements, every sixth uses the shipped 932-935 on ONE instant written in up to nine notations, half of the runs start with a stale text in the caller's context; no other element's input may appear in an element's result; every sixth tree gives each element its own instant and notation under a shipped 931-935 (written as key or as [UB1]/[UB2], half of the elements typed DATETIME/TEXT): the reported verdict must be the independent calendar's verdict on the input as entered. every other element is re-validated on its own AS THE SAME OBJECT that went through the tree run.",
+    "C15": "inputs with leading / trailing whitespace and whitespace-only inputs; trees whose evaluator answers with long-lived per-key result objects; every fourth tree shares three keys between all elements, every sixth uses the shipped 932-935 on ONE instant written in up to nine notations, half of the runs start with a stale text in the caller's context; no other element's input may appear in an element's result; every sixth tree gives each element its own instant and notation under a shipped 931-935 (written as key or as [UB1]/[UB2], half of the elements typed DATETIME/TEXT): the reported verdict must be the independent calendar's verdict on the input as entered. every other element is re-validated on its own AS THE SAME OBJECT that went through the tree run. evaluators that answer ALL keys with one long-lived fulfilled / not-fulfilled object pair (15 % of the ordinary trees, half of the shared-key trees).",
     "C16": "35 % of the injections with one pending look-up per requirement key shared between all nodes; hint texts contain braces, percent signs and quotes; a third of the trees partly written with packages.",
     "C17": "12 % of the pool entries carry an empty, blank or \"0\" meaning. padded offered qualifiers and blank inputs (never offered).",
+    "C20": "whether a FULFILLED verdict is defensible at all is decided by a recogniser of ISO 8601 / RFC 3339 datetimes of the harness' own (not by datetime.fromisoformat, which the code under test uses and which is lenient).",
     "C18": "fixed extraction cases every run contains (unknown package, out-of-range keys, nested package, all flags); a second sum with the same left summand; the product regenerated after keys were added to the same extract.",
-    "C19": "staged resolution on one tree object (inspect unresolved, then expand); dumps through the concise schemas and rejected documents interleaved; long-lived schema instances; extracts as extracted (unsanitised). extracts are round-tripped again after generate_possible_content_evaluation_results() was called on them. after 50 cases the process defines marshmallow schema classes of its own whose names coincide with those of ahbicht (one process-wide class registry).",
+    "C19": "staged resolution on one tree object (inspect unresolved, then expand); dumps through the concise schemas and rejected documents interleaved; long-lived schema instances; extracts as extracted (unsanitised). extracts are round-tripped again after generate_possible_content_evaluation_results() was called on them. after 50 cases the process defines marshmallow schema classes of its own whose names coincide with those of ahbicht (one process-wide class registry). parse trees of single runs of 30-110 (thorough: -200) operands through TreeSchema (RecursionError from 55 operands on: open known finding).",
 }
 for _pid, _text in RULE_ADDITIONS.items():
     META[_pid]["rule"] += " Also: " + _text
